@@ -316,7 +316,25 @@ func Zero(r *rng.R) dec.D {
 // shape (zero coefficient and exponent).
 func SpecialValue(r *rng.R) dec.D {
 	f := []dec.Form{dec.NaN, dec.SNaN, dec.Inf}[r.Intn(3)]
+	if f == dec.Inf && r.Bool() {
+		return OverflowInf(r)
+	}
 	return dec.Special(f, r.Bool())
+}
+
+// OverflowInf draws an infinity in the representation the library produces
+// when a result overflows: Form is Infinite while the rounded coefficient and
+// the exponent of the would-be result are still in place. Its value is the
+// infinity; only code that forgets to look at Form can tell the difference.
+func OverflowInf(r *rng.R) dec.D {
+	c := big.NewInt(r.Range(1, 999999999))
+	switch r.Intn(4) {
+	case 0:
+		c = big.NewInt(r.Range(1, 99))
+	case 1:
+		c.Lsh(c, uint(r.Intn(120)))
+	}
+	return dec.D{Form: dec.Inf, Neg: r.Bool(), C: c, E: r.Range(-30, 400)}
 }
 
 // Any draws any well-formed decimal: mostly finite.
